@@ -10,6 +10,8 @@ def cfgs(tier):
     ads = [["N"], ["V"], ["L"]] + [["T", p] for p in (0.0, 0.25, 0.5, 0.75, 1.0)]
     for a in ads:
         out.append(dict(consumers=[[a]], window=3 if q else 4, lattice=0.25, beyond=0.25))
+        # non-dyadic float values of very different magnitude; at publication times the published value must come back bit-identical
+        out.append(dict(consumers=[[a]], window=2 if q else 3, lattice=0.5, float_values=True, exact_at_publications=True))
         out.append(dict(consumers=[[a]], window=2 if q else 3, lattice=0.25, beyond=0.25, payload="grid"))
     # two independent consumers behind two adapters of one output (eviction in one must not disturb the other), and adapter behind adapter
     for a, b in ((["L"], ["N"]), (["T", 0.5], ["V"]), (["L"], ["L"])):
